@@ -16,11 +16,11 @@ NEEDS = ["harness", "cli"]
 RULE = ("L: shapes with 1-6 axes (lengths 1-7, plus one array with > 8192 entries per shard) x values {integers, dyadics, random doubles, wide "
         "exponents, +-0, subnormals, 1e+-300, max double, +-inf, NaN, tiny doubles whose top byte is an ASCII whitespace byte (as the LAST element)} x precision 0..17; npy: bits identical after write->read; text: every printed "
         "finite token d satisfies |d - x| <= 0.5*10^-p exactly and the value read back is float(d) bit for bit (NaN<->NaN, inf<->inf). C: writers "
-        "{create, view, fold} x formats {text, npy} x transport {file, pipe} (the -o path absent, empty, holding a longer earlier spectrum or longer garbage, or being the input itself; the file must equal what the same command writes to a pipe) -> readers {view, fold, stat} via {stdin pipe, regular file, /dev/stdin, named pipe} with auto-detection; text->npy->text at "
+        "{create, view, fold} x formats {text, npy} x transport {file, pipe} (the -o path absent, empty, holding a longer earlier spectrum or longer garbage, or being the input itself; the file must equal what the same command writes to a pipe) -> readers {view, fold, stat} via {stdin pipe, regular file (stdin /dev/null or an idle pseudo-terminal), /dev/stdin, named pipe} with auto-detection; text->npy->text at "
         "the same precision reproduces the text when values have <= 15 significant digits. Non-trivial: non-constant data; distinct = digest(shape, bits, precision).")
 ASSUMPTIONS = ["Python's float(str) is correctly rounded (IEEE round-half-even), used as the reference for reading decimals",
                "-0 and 0 are the same number for text; NaN payloads only compared for npy"]
-FLOORS = {"quick": {"evaluations": 3000, "distinct_nontrivial": 2500, "counts": {"L_npy_roundtrips": 1200, "L_text_roundtrips": 1200, "C_matrix_runs": 300}},
+FLOORS = {"quick": {"evaluations": 3000, "distinct_nontrivial": 2500, "counts": {"L_npy_roundtrips": 1200, "L_text_roundtrips": 1200, "C_matrix_runs": 300, "C_million_value_runs": 2, "C_terminal_stdin_runs": 10}},
           "thorough": {"evaluations": 120000, "distinct_nontrivial": 100000, "counts": {"L_npy_roundtrips": 50000, "L_text_roundtrips": 50000, "C_matrix_runs": 9000}}}
 NSHARD = 32
 
@@ -175,6 +175,14 @@ def check_C(S, p):
                 produced = w.out
         S.count("C_matrix_runs")
         S.observe("writer_format_transport", "%s/%s/%s" % (writer, fmt, transport))
+        if writer != "create" and transport == "pipe" and w.rc == 0:
+            # the same conversion as typed at a shell prompt: input named by path, stdin an idle terminal, stdout redirected
+            wt = cli.sfs(args + [E.tmpfile(src, ".in")], stdin_tty=True)
+            S.count("C_matrix_runs")
+            S.count("C_terminal_stdin_runs")
+            if wt.rc != 0 or wt.out != produced:
+                S.viol("C07:terminal-stdin", "[C %s <path> with a terminal on stdin, stdout redirected] rc %s, %d bytes, stderr %r; the same input on stdin gives %d bytes" % (
+                    " ".join(args), wt.rc, len(wt.out), wt.err[:200], len(produced)), {"level": "C", "argv": wt.argv, "input_b64": E.b64(src), "stdin": "pseudo-terminal", "run": wt.brief()})
         wit = {"level": "C", "writer": w.argv, "produced_b64": E.b64(produced[:20000]), "run": w.brief()}
         if w.rc != 0 or not produced:
             S.viol("C07:writer-failed", "[C %s] writer failed: rc %s %r" % (writer, w.rc, w.err[:200]), wit)
@@ -184,7 +192,10 @@ def check_C(S, p):
             if via == "stdin":
                 r = cli.sfs(reader, stdin=produced)
             elif via == "path":
-                r = cli.sfs(reader + [E.tmpfile(produced, ".in")])
+                tty = rng.random() < 0.5
+                r = cli.sfs(reader + [E.tmpfile(produced, ".in")], stdin_tty=tty)
+                if tty:
+                    S.observe("reader_transport", "%s/path with a terminal on stdin" % reader[0])
             elif via == "dev-stdin":
                 r = cli.sfs(reader + ["/dev/stdin"], stdin=produced)          # a pipe named by a path
             else:
@@ -257,10 +268,50 @@ def check_C_npy_stdout(S, p):
     S.case(key=digest([GS.hexes(vals)[:50], "npy-stdout"]), nontrivial=True)
 
 
+def check_C_million(S, p):
+    """A spectrum with more than 2^20 entries (1025 x 1025: two populations of 512 diploids) written as text and read back: every
+    token in its place. The first quarter holds values that are slow to format (hundreds of digits), the rest small ones - work
+    split by position must be reassembled by position."""
+    import numpy as np, io
+    rng = rng_for(S.seed, "c07", p["name"], "million")
+    shape = rng.choice([[1025, 1025], [1048577], [2, 524289]])
+    n = shape[0] * (shape[1] if len(shape) > 1 else 1)
+    vals = np.arange(n, dtype=np.float64) % 9973.0
+    q = n // 4
+    vals[:q] = 1e150 * (1.0 + (np.arange(q) % 7))
+    if rng.random() < 0.5:
+        vals = vals[::-1].copy()
+    buf = io.BytesIO()
+    np.save(buf, vals.reshape(shape))
+    src = buf.getvalue()
+    for rep in range(2):
+        r = cli.sfs(["view", "--precision", "1"], stdin=src, timeout=300)
+        S.count("C_matrix_runs")
+        S.count("C_million_value_runs")
+        wit = {"level": "C", "argv": r.argv, "shape": shape, "input": "npy; first (or last) quarter k -> 1e150 * (1 + k % 7), others k % 9973", "rc": r.rc, "stderr": r.err[:300].decode("latin1")}
+        lines = r.out.split(b"\n")
+        if r.rc != 0 or len(lines) != 3 or lines[0] != ("#SHAPE=<%s>" % "/".join(map(str, shape))).encode():
+            S.viol("C07:million", "[C view --precision 1 on %r] rc %s, header %r, %d lines" % (shape, r.rc, lines[0][:60], len(lines)), wit)
+            continue
+        toks = lines[1].split(b" ")
+        try:
+            got = np.array([float(t) for t in toks])
+        except ValueError as e_:
+            S.viol("C07:million", "[C view --precision 1 on %r] a token is not a number: %s" % (shape, e_), wit)
+            continue
+        if len(got) != n or not np.array_equal(got, vals):
+            bad = np.nonzero(got[:min(n, len(got))] != vals[:min(n, len(got))])[0]
+            S.viol("C07:million", "[C view --precision 1 on %r] %d tokens for %d entries; %d differ, first at flat %s: printed %r, value %r" % (
+                shape, len(got), n, len(bad), bad[:1], toks[int(bad[0])][:40] if len(bad) else None, float(vals[int(bad[0])]) if len(bad) else None), wit)
+        S.case(key=digest(["million", shape, rep]), nontrivial=True)
+
+
 def shard(S, p):
     if "replay" in p:
         S.inconc("witness carries the request / argv for manual replay")
         return
+    if p["i"] % 16 == 5:
+        check_C_million(S, p)
     check_L(S, p)
     check_C(S, p)
     check_C_npy_stdout(S, p)
